@@ -41,6 +41,7 @@ TSave == Step("save") /\ Ev.ok /\ Ev.nw = Ev.len /\ Flush /\ UNCHANGED prev
 \* WriteTo, then ReadFrom into a freshly constructed index which replaces the object under test;
 \* counts agree and the reader stops exactly at the end of the index's own bytes
 TReload == /\ Step("reload") /\ Ev.ok /\ Ev.nw = Ev.len /\ Ev.nr = Ev.len /\ Ev.rest = Ev.trailer
+           /\ Ev.qa = Ev.qb          \* the reloaded index answers every probe query exactly as its source (all kinds, HNSW included)
            /\ Reload /\ UNCHANGED prev
 
 \* equal answers, up to the order and choice among tied scores
